@@ -284,6 +284,13 @@ impl Check for Gates {
     fn components(&self) -> serde_json::Value {
         serde_json::json!({"real": ["examples/fungible-{pausable,allowlist,blocklist,capped} and examples/pausable (from source)", "AllowList / BlockList wrappers wiring every library override", "pausable storage + when_not_paused macro", "capped::check_cap"], "stub": ["Wallet"]})
     }
+    fn property_of(&self, check: &str) -> std::vec::Vec<&'static str> {
+        if check.starts_with("roles.") {
+            vec!["C06", "C16"]
+        } else {
+            vec!["C16"]
+        }
+    }
     fn clock_step(&self, n: u32) -> Option<Step> {
         Some(Step::Wait { n })
     }
@@ -431,7 +438,12 @@ impl Check for Gates {
                     Step::Approve { owner, .. } => format!("{:?}.{kind}/owner-{}", cfg.kind, party(*owner)),
                     _ => format!("{:?}.{kind}", cfg.kind),
                 };
-                let check = if matches!(s, Step::Pause { .. } | Step::Unpause { .. }) { if got { "pause.alternation_and_owner_only" } else { "pause.alternation_live" } } else if matches!(s, Step::EmergencyReset) && got { "pause.when_paused_only" } else if got { if snapshot.paused { "pause.gated_fail_while_paused" } else if matches!(s, Step::Mint { .. }) && cfg.kind == Kind::CappedExample { "cap.never_exceeded" } else { "gate" } } else { "live.open_gate_succeeds" };
+                let role_reason = match s {
+                    Step::Pause { caller, signed } | Step::Unpause { caller, signed } => !*signed || *caller != 0,
+                    Step::List { operator, signed, .. } => matches!(cfg.kind, Kind::AllowExample | Kind::BlockExample) && (!*signed || *operator != 1),
+                    _ => false,
+                };
+                let check = if got && role_reason { "roles.owner_or_manager_only" } else if matches!(s, Step::Pause { .. } | Step::Unpause { .. }) { if got { "pause.alternation_and_owner_only" } else { "pause.alternation_live" } } else if matches!(s, Step::EmergencyReset) && got { "pause.when_paused_only" } else if got { if snapshot.paused { "pause.gated_fail_while_paused" } else if matches!(s, Step::Mint { .. }) && cfg.kind == Kind::CappedExample { "cap.never_exceeded" } else { "gate" } } else { "live.open_gate_succeeds" };
                 return Err(violation(check, &disc, i, format!("{s:?}: real {got} model {exp}; paused={} listed={:?} supply={} cap={}", snapshot.paused, snapshot.listed, snapshot.supply, cfg.cap)));
             }
             if !got && w.storage_digest(&[&id]) != before {
